@@ -9,15 +9,17 @@ from .common import SOCKET, SOCK_CLS, sock_fn
 
 LEVEL = "other"
 EXPLANATION = (
-    "Static analysis of AirTouchSocket._read_one_message/_read: R1 the stream is consumed only by three readexactly() calls, in "
-    "dominance order header -> payload -> check bytes, with lengths header_decoder.header_length, header.message_length (of the header "
-    "decoded from the first read) and checksum_calculator.checksum_length, none inside a loop or reached twice per frame; R2 who-may-read: "
-    "no other use of the reader anywhere (read/readline/readuntil/iteration/handing it out); header_length returns the header struct size; "
-    "R3 _read delivers each successful result exactly once before the next read. Given the documented contract of StreamReader.readexactly "
-    "(exactly n bytes or IncompleteReadError, regardless of segmentation) the delivered sequence is a function of the byte stream alone."
+    'Static analysis of AirTouchSocket._read_one_message/_read: R1 the stream is consumed only by three readexactly() calls, in dominance order header -> '
+    'payload -> check bytes, with lengths header_decoder.header_length, header.message_length (of the header decoded from the first read) and '
+    'checksum_calculator.checksum_length, none inside a loop or reached twice per frame; R2 who-may-read: no other use of the reader anywhere '
+    '(read/readline/readuntil/iteration/handing it out); header_length returns the header struct size; R3 _read delivers each successful result exactly '
+    'once before the next read, as the two components of what that read returned, and the whole delivery chain (_notify_message_received -> '
+    '_notify_subscribers -> each callback) is awaited, never handed to a background task; R4 the subscriber collections are not shared or mutated during '
+    'delivery (C12.R4 re-used). Given the documented contract of StreamReader.readexactly (exactly n bytes or IncompleteReadError, regardless of '
+    'segmentation) the delivered sequence is a function of the byte stream alone.'
 )
 ASSUMPTIONS = ["asyncio.StreamReader.readexactly(n) returns exactly n bytes or raises IncompleteReadError, independent of how the bytes arrive"]
-FLOORS = {"C13.R1": 5, "C13.R2": 3, "C13.R3": 2}
+FLOORS = {"C13.R1": 5, "C13.R2": 3, "C13.R3": 2, "C13.R4": 1}
 
 
 def run(ctx):
